@@ -116,3 +116,46 @@ func VH_C06_ProtectedTarget() {
 		vAssert("target_conn_closed", target.Connection.(*vConn).closed == 1)
 	}
 }
+
+// History: a user edits the account it is logged in with (gives privileges up), then asks for a new account. The
+// creator's privileges that count are those of its account after the edit: the new account never gets a privilege
+// the creator's account now lacks. Two further sessions of the same account are connected as well; every session of
+// the edited account works with the new privileges from then on.
+func VH_C06_CreatorAfterEditingItself() {
+	srv, cc := vNewServer()
+	s2 := vNewClient(srv, "me")
+	other := vNewClient(srv, "other")
+	otherAccess := other.Account.Access
+	am := &vStubAM{getResult: &hotline.Account{Login: "me", Name: "me", Password: "H:pw", Access: cc.Account.Access}}
+	srv.AccountManager = am
+	vAssume(vBit(cc.Account.Access, hotline.AccessModifyUser))
+	newAccess := vBytesN("access_after_edit", 8)
+	st := hotline.NewTransaction(hotline.TranSetUser, cc.ID, f(hotline.FieldUserLogin, []byte{255 - 'm', 255 - 'e'}), f(hotline.FieldUserName, []byte("me")),
+		f(hotline.FieldUserAccess, newAccess), f(hotline.FieldUserPassword, []byte{0}))
+	res := HandleSetUser(cc, &st)
+	vAssert("edit_done", len(am.updated) == 1 && len(res) >= 1 && !vIsErrReply(res[len(res)-1:]))
+	var want hotline.AccessBitmap
+	copy(want[:], newAccess)
+	vAssert("requesting_session_has_the_new_privileges", cc.Account.Access == want)
+	vAssert("second_session_has_the_new_privileges", s2.Account.Access == want)
+	vAssert("other_accounts_untouched", other.Account.Access == otherAccess)
+	told := 0
+	for _, r := range res {
+		if r.Type == hotline.TranUserAccess && (r.ClientID == cc.ID || r.ClientID == s2.ID) {
+			told++
+		}
+		vAssert("other_account_not_told_new_access", !(r.Type == hotline.TranUserAccess && r.ClientID == other.ID))
+	}
+	vAssert("every_session_of_the_account_is_told_once", told == 2)
+	// now the same client asks for a new account
+	am.getResult = nil
+	req := vBytesN("req.access", 8)
+	t := hotline.NewTransaction(hotline.TranNewUser, cc.ID, f(hotline.FieldUserLogin, []byte("nu")), f(hotline.FieldUserName, []byte("n")),
+		f(hotline.FieldUserPassword, []byte("p")), f(hotline.FieldUserAccess, req))
+	HandleNewUser(cc, &t)
+	for _, a := range am.created {
+		for i := 0; i < 64; i++ {
+			vAssert("created_subset_of_creators_account_after_the_edit", !vBit(a.Access, i) || vBit(want, i))
+		}
+	}
+}
